@@ -1,4 +1,5 @@
 import Zlink.Proofs.Server
+import Zlink.Proofs.ServerQuiet
 /-! # C08 — Server answers each call once, in order, on its own connection; oneway gets none
 
 Model: `Zlink/Model/Server.lean` (`server/mod.rs`, `server/select_all.rs`) over the poll-level receive
@@ -39,6 +40,33 @@ theorem C08_refinement (C : Consts) (hstep : 0 < C.step) (sizes : Nat → Nat)
     have hb := (g.streams j p hj hg).bk
     exact ⟨hb.k_le, hb.calls, hb.out⟩
 
+/-- **C08 (quiescence: every call is answered).** In EVERY reachable state in which the server loop
+    cannot make progress (`Server::run` would return `Pending`: nothing to accept, no receive ready, no
+    stream item to forward), nobody waits in the accept queue, no reply stream is open, and every
+    well-behaved connection whose bytes have all arrived has had **all** its calls handled: nothing is
+    left unread, and what it was sent is the sequential reference's answer to the whole script — each
+    call answered exactly once, in order, oneway calls not at all. -/
+theorem C08_quiescent (C : Consts) (hstep : 0 < C.step) (sizes : Nat → Nat)
+    (evs : List Srv.Ev) (hev : Srv.EvsOK C sizes evs init)
+    (hidle : iter C sizes (runEvs C sizes evs init) = none) :
+    let s := runEvs C sizes evs init
+    s.listenQ = [] ∧ s.streams = [] ∧
+    ∀ c ∈ s.conns, c.good = true → c.fut = [] → c.calls = [] ∧ c.out = expectedOut c.descs := by
+  have g := run_inv C hstep sizes evs init (ginv_init C) hev
+  intro s
+  obtain ⟨h1, h2, h3⟩ := iter_none C hstep sizes s g hidle
+  refine ⟨h1, h2, ?_⟩
+  intro c hc hg hfut
+  have hk := h3 c hc hg hfut
+  obtain ⟨j, hj⟩ := List.mem_iff_getElem?.mp hc
+  have inv := g.conns j c hj hg
+  have hlen := inv.st.len
+  constructor
+  · rw [inv.bk.calls, hk, ← hlen]; simp
+  · have := inv.bk.out
+    rw [hk, ← hlen] at this
+    simpa using this
+
 /-- A call flagged oneway gets nothing, whatever the service answers. -/
 theorem C08_oneway_silent (v : Nat) : answer (.echo v true) = [] ∧ answer (.fail true) = [] := ⟨rfl, rfl⟩
 
@@ -61,5 +89,7 @@ def c1 : Conn := conn 1 [[9]] [.sub 2 0]
 def evs : List Srv.Ev := [.connect c0, .connect c1, .arrive 0 [1, 2, 0, 3], .run 50, .arrive 1 [9, 0], .arrive 0 [0], .run 50]
 example : (runEvs C (fun _ => 100) evs Srv.init).all.map (fun c => (c.id, c.out)) =
     [(0, [.R 7]), (1, [.I 0 (some true), .I 1 (some false)])] := by decide
+/-- the hypothesis of `C08_quiescent` is met by this run: after the last poll the server is idle -/
+example : iter C (fun _ => 100) (runEvs C (fun _ => 100) evs Srv.init) = none := by decide
 end Example
 end C08
